@@ -2,8 +2,10 @@
 # Builds the driver and warms the Go build cache (offline, files on disk only).
 set -e
 export GOFLAGS=-mod=mod GOPROXY=off GOSUMDB=off GOTOOLCHAIN=local
-cd /verif/sim
+ROOT="$(cd "$(dirname "$0")" && pwd)"
+cd "$ROOT/sim"
 cp /repo/go.sum go.sum
-mkdir -p /verif/bin
-go1.26.8 build -o /verif/bin/vsim ./cmd/vsim
-/verif/bin/vsim warm
+mkdir -p "$ROOT/bin"
+go1.26.8 build -o "$ROOT/bin/vsim" ./cmd/vsim
+cd "$ROOT"
+"$ROOT/bin/vsim" warm
